@@ -19,10 +19,10 @@
    * bytes are N < 256, WB_ULONG is N with explicit u32 where the C can wrap;
    * the output buffer is write-only during encoding, so every function RETURNS the bytes it appends
      (in order) instead of threading `encoder->output`; the remaining encoder fields are the record [est];
-   * the tree is the C's tree (children/next chains = lists); text nodes are numbered in traversal
-     order ([tid]) because a string-table entry collected from a text node ALIASES that node's
-     buffer (`stat_buff = TRUE`): parse_text trims the node in place and thereby changes the entry
-     (defect D7).  [s_alias] records which text node an entry shares its buffer with;
+   * the tree is the C's tree (children/next chains = lists);
+   * the string table owns its strings (since the repair of D7, /repo 6829a7f: an entry promoted from the tree is a
+     copy), so trimming a text node in place (parse_text) cannot change an entry any more and the model keeps no
+     buffer identities;
    * no proofs here.                                                                              *)
 From Coq Require Import List NArith Bool.
 From Wbxml Require Import Model.Codec.
@@ -251,8 +251,8 @@ Definition find_lang (tbl : list blang) (id : N) : option blang := find (fun l =
 (* ------------------------------------------------------------------ *)
 (* encoder state                                                        *)
 
-(* WBXMLStringTableElement: string, offset; s_alias = Some k when `string` IS the buffer of text node k *)
-Record ste := mk_ste { s_str : bytes; s_off : N; s_alias : option N }.
+(* WBXMLStringTableElement: string (owned), offset *)
+Record ste := mk_ste { s_str : bytes; s_off : N }.
 
 Record est := mk_est {
   tagcp : N;                       (* tagCodePage *)
@@ -261,21 +261,17 @@ Record est := mk_est {
   in_cdata : bool;
   cdata : option bytes;            (* CDATA buffer (NULL = None) *)
   strtbl : list ste;               (* strstbl *)
-  strtbl_len : N;                  (* strstbl_len *)
-  tid : N                          (* text nodes visited so far (identity of the node buffers) *)
+  strtbl_len : N                   (* strstbl_len *)
 }.
 
 Definition set_pages (st : est) (t a : N) : est :=
-  mk_est t a (cur_tag st) (in_cdata st) (cdata st) (strtbl st) (strtbl_len st) (tid st).
+  mk_est t a (cur_tag st) (in_cdata st) (cdata st) (strtbl st) (strtbl_len st).
 Definition set_cur_tag (st : est) (c : option (N * N * N)) : est :=
-  mk_est (tagcp st) (attrcp st) c (in_cdata st) (cdata st) (strtbl st) (strtbl_len st) (tid st).
+  mk_est (tagcp st) (attrcp st) c (in_cdata st) (cdata st) (strtbl st) (strtbl_len st).
 Definition set_cdata (st : est) (b : bool) (c : option bytes) : est :=
-  mk_est (tagcp st) (attrcp st) (cur_tag st) b c (strtbl st) (strtbl_len st) (tid st).
+  mk_est (tagcp st) (attrcp st) (cur_tag st) b c (strtbl st) (strtbl_len st).
 Definition set_strtbl (st : est) (t : list ste) (n : N) : est :=
-  mk_est (tagcp st) (attrcp st) (cur_tag st) (in_cdata st) (cdata st) t n (tid st).
-Definition set_tid (st : est) (k : N) : est :=
-  mk_est (tagcp st) (attrcp st) (cur_tag st) (in_cdata st) (cdata st) (strtbl st) (strtbl_len st) k.
-
+  mk_est (tagcp st) (attrcp st) (cur_tag st) (in_cdata st) (cdata st) t n.
 (* per-run constants of one encoder object *)
 Record env := mk_env {
   e_lang : blang;
@@ -290,20 +286,18 @@ Record env := mk_env {
 (* string table                                                         *)
 
 (* wbxml_strtbl_add_element: returns (index, table', len') — an equal string already present gives its offset *)
-Definition strtbl_add (tbl : list ste) (tlen : N) (s : bytes) (alias : option N) : N * list ste * N :=
+Definition strtbl_add (tbl : list ste) (tlen : N) (s : bytes) : N * list ste * N :=
   match find (fun e => (len (s_str e) =? len s) && beq (s_str e) s) tbl with
   | Some e => (s_off e, tbl, tlen)
-  | None => (tlen, tbl ++ [mk_ste s tlen alias], u32 (tlen + len s + 1))
+  | None => (tlen, tbl ++ [mk_ste s tlen], u32 (tlen + len s + 1))
   end.
 
 (* wbxml_strtbl_construct *)
 Definition strtbl_construct (tbl : list ste) : bytes :=
   flat_map (fun e => s_str e ++ [0]) tbl.
 
-(* wbxml_strtbl_collect_strings: the WBXMLBuffer pointers appended to `strings`, in traversal order;
-   the second component is the identity of the buffer (text node number) or None for attribute values,
-   which nothing modifies later *)
-Definition collect_attr (l : blang) (a : attr) : list (bytes * option N) :=
+(* wbxml_strtbl_collect_strings: the strings appended to `strings`, in traversal order *)
+Definition collect_attr (l : blang) (a : attr) : list bytes :=
   if 3 <? len (at_value a) then
     let value := cstr (at_value a) in
     let tokenisable_start :=
@@ -313,59 +307,38 @@ Definition collect_attr (l : blang) (a : attr) : list (bytes * option N) :=
         | Some (_, _) => true
         end in
     if tokenisable_start then []
-    else if contains_attr_value l value then [] else [(at_value a, None)]
+    else if contains_attr_value l value then [] else [at_value a]
   else [].
 
-Fixpoint collect_node (l : blang) (n : node) (k : N) : list (bytes * option N) * N :=
+Fixpoint collect_node (l : blang) (n : node) : list bytes :=
   match n with
-  | NText c =>
-    (if only_ws c then [] else if 3 <? len c then [(c, Some k)] else [], k + 1)
-  | NElt _ attrs ch =>
-    let own := flat_map (collect_attr l) attrs in
-    let '(sub, k') :=
-        (fix go (ns : list node) (k : N) : list (bytes * option N) * N :=
-           match ns with
-           | [] => ([], k)
-           | x :: r => let '(a, k1) := collect_node l x k in
-                       let '(b, k2) := go r k1 in (a ++ b, k2)
-           end) ch k in
-    (own ++ sub, k')
-  | NCData ch =>
-    (fix go (ns : list node) (k : N) : list (bytes * option N) * N :=
-       match ns with
-       | [] => ([], k)
-       | x :: r => let '(a, k1) := collect_node l x k in
-                   let '(b, k2) := go r k1 in (a ++ b, k2)
-       end) ch k
-  | NPi => ([], k)
-  | NTree _ _ => ([], k)           (* node->tree is not node->children: not visited *)
+  | NText c => if only_ws c then [] else if 3 <? len c then [c] else []
+  | NElt _ attrs ch => flat_map (collect_attr l) attrs ++ flat_map (collect_node l) ch
+  | NCData ch => flat_map (collect_node l) ch
+  | NPi => []
+  | NTree _ _ => []           (* node->tree is not node->children: not visited *)
   end.
 
-Fixpoint collect_nodes (l : blang) (ns : list node) (k : N) : list (bytes * option N) * N :=
-  match ns with
-  | [] => ([], k)
-  | x :: r => let '(a, k1) := collect_node l x k in
-              let '(b, k2) := collect_nodes l r k1 in (a ++ b, k2)
-  end.
+Definition collect_nodes (l : blang) (ns : list node) : list bytes := flat_map (collect_node l) ns.
 
-(* wbxml_strtbl_check_references, first half: count references; a new element keeps the FIRST buffer *)
-Record refc := mk_ref { r_str : bytes; r_alias : option N; r_count : N }.
+(* wbxml_strtbl_check_references, first half: count references *)
+Record refc := mk_ref { r_str : bytes; r_count : N }.
 
 Fixpoint ref_bump (refs : list refc) (s : bytes) : option (list refc) :=
   match refs with
   | [] => None
   | r :: rest =>
-    if beq (r_str r) s then Some (mk_ref (r_str r) (r_alias r) (r_count r + 1) :: rest)
+    if beq (r_str r) s then Some (mk_ref (r_str r) (r_count r + 1) :: rest)
     else match ref_bump rest s with Some rest' => Some (r :: rest') | None => None end
   end.
 
-Fixpoint count_refs (strings : list (bytes * option N)) (refs : list refc) : list refc :=
+Fixpoint count_refs (strings : list bytes) (refs : list refc) : list refc :=
   match strings with
   | [] => refs
-  | (s, a) :: rest =>
+  | s :: rest =>
     match ref_bump refs s with
     | Some refs' => count_refs rest refs'
-    | None => count_refs rest (refs ++ [mk_ref s a 1])
+    | None => count_refs rest (refs ++ [mk_ref s 1])
     end
   end.
 
@@ -377,31 +350,24 @@ Fixpoint keep_refs (refs : list refc) (tbl : list ste) (tlen : N) : list ste * N
   | r :: rest =>
     if (1 <? r_count r) && (3 <? len (r_str r)) then
       (* the table owns a copy of the string (fix of D7): no entry shares a text node's buffer *)
-      let '(_, tbl', tlen') := strtbl_add tbl tlen (r_str r) None in
+      let '(_, tbl', tlen') := strtbl_add tbl tlen (r_str r) in
       keep_refs rest tbl' tlen'
     else
       let '(tbl', tlen', one) := keep_refs rest tbl tlen in (tbl', tlen', r :: one)
   end.
 
-Definition check_references (strings : list (bytes * option N)) (tbl : list ste) (tlen : N)
+Definition check_references (strings : list bytes) (tbl : list ste) (tlen : N)
   : list ste * N * list refc :=
   keep_refs (count_refs strings []) tbl tlen.
 
 (* wbxml_strtbl_initialize *)
 Definition strtbl_initialize (l : blang) (roots : list node) : list ste * N :=
-  let '(strings, _) := collect_nodes l roots 0 in
+  let strings := collect_nodes l roots in
   let '(tbl1, len1, one_ref) := check_references strings [] 0 in
   (* wbxml_strtbl_collect_words: NULL (nothing more) when one_ref is empty *)
-  let words := flat_map (fun r => map (fun w => (w, @None N)) (split_words (r_str r))) one_ref in
+  let words := flat_map (fun r => split_words (r_str r)) one_ref in
   let '(tbl2, len2, _) := check_references words tbl1 len1 in
   (tbl2, len2).
-
-(* parse_text strips node k in place: every table entry sharing that buffer changes with it *)
-Definition strip_alias (k : N) (tbl : list ste) : list ste :=
-  map (fun e => match s_alias e with
-                | Some j => if j =? k then mk_ste (strip_blanks (s_str e)) (s_off e) (s_alias e) else e
-                | None => e
-                end) tbl.
 
 (* ------------------------------------------------------------------ *)
 (* leaf encoders                                                        *)
@@ -424,7 +390,7 @@ Definition enc_attr_token (st : est) (token page : N) : bytes * est :=
 (* wbxml_encode_tag_literal / wbxml_encode_attr_start_literal *)
 Definition enc_literal (e : env) (st : est) (name : bytes) (mask : N) : eres (bytes * est) :=
   if e_use_strtbl e then
-    let '(idx, tbl', tlen') := strtbl_add (strtbl st) (strtbl_len st) (cstr name) None in
+    let '(idx, tbl', tlen') := strtbl_add (strtbl st) (strtbl_len st) (cstr name) in
     EOk ([N.lor 4 mask] ++ mb_write idx, set_strtbl st tbl' tlen')
   else EErr E_STRTBL_DISABLED.
 
@@ -854,51 +820,55 @@ Definition enc_element_start (e : env) (st : est) (tag : tagname) (attrs : list 
 Definition is_binary_tag (st : est) : bool :=
   match cur_tag st with Some (_, _, o) => negb (N.land o 1 =? 0) | None => false end.
 
-(* parse_text for text node number k with parent tag `parent` *)
-Definition enc_text (e : env) (st : est) (parent : option tagname) (k : N) (content : bytes) : eres (bytes * est) :=
+(* parse_text for a text node with parent tag `parent` (the node is trimmed in place; nothing else reads it) *)
+Definition enc_text (e : env) (st : est) (parent : option tagname) (content : bytes) : eres (bytes * est) :=
   if is_binary_tag st then EOk (enc_opaque content, st)
   else
     if negb (in_cdata st) && e_ignore_empty e && only_ws content then EOk ([], st)
     else
       let strip := negb (in_cdata st) && e_remove_blanks e in
       let content' := if strip then strip_blanks content else content in
-      let st1 := if strip then set_strtbl st (strip_alias k (strtbl st)) (strtbl_len st) else st in
-      if in_cdata st1 then
-        match cdata st1 with
+      if in_cdata st then
+        match cdata st with
         | None => EErr E_INTERNAL
         | Some d =>
           let c2 := if is_syncml (e_lang e) && beq content' [10] then [13; 10] else content' in
-          EOk ([], set_cdata st1 true (Some (d ++ c2)))
+          EOk ([], set_cdata st true (Some (d ++ c2)))
         end
-      else enc_value e st1 false None [] parent (cstr content').
+      else enc_value e st false None [] parent (cstr content').
 
 (* ------------------------------------------------------------------ *)
 (* header                                                               *)
 
-(* wbxml_fill_header; textual_publicid is never set on these paths *)
+(* wbxml_fill_header; textual_publicid is never set on these paths.
+   An anonymous document carries the public id 1 ('unknown') whatever the language (/repo 16878ac) and no id string;
+   WBXML 1.0 (version enum 0) has no charset field (/repo f5bdeab). *)
+Definition header_public_id (e : env) : N := if e_anonymous e then 1 else bl_pub_num (e_lang e).
+Definition header_charset (e : env) : bytes := if e_version e =? 0 then [] else mb_write 106.
+
 Definition fill_header (e : env) (st : est) : bytes :=
   let l := e_lang e in
   let pid : option bytes :=
-      if (bl_pub_num l =? 1) && negb (e_anonymous e)
+      if (header_public_id e =? 1) && negb (e_anonymous e)
       then match bl_pub_text l with Some s => Some s | None => None end
       else None in
   let '(idx, tbl, tlen) :=
       match pid with
       | Some p =>
-        if e_use_strtbl e then strtbl_add (strtbl st) (strtbl_len st) p None
+        if e_use_strtbl e then strtbl_add (strtbl st) (strtbl_len st) p
         else (0, strtbl st, u32 (len p + 1))
       | None => (0, strtbl st, strtbl_len st)
       end in
   [u8 (e_version e)]
-    ++ (match pid with Some _ => [0] ++ mb_write idx | None => mb_write (bl_pub_num l) end)
-    ++ mb_write 106 ++ mb_write tlen
+    ++ (match pid with Some _ => [0] ++ mb_write idx | None => mb_write (header_public_id e) end)
+    ++ header_charset e ++ mb_write tlen
     ++ (if e_use_strtbl e then strtbl_construct tbl
         else match pid with Some p => p ++ [0] | None => [] end).
 
 (* ------------------------------------------------------------------ *)
 (* the tree walk                                                        *)
 
-Definition init_est (tbl : list ste) (tlen : N) : est := mk_est 0 0 None false None tbl tlen 0.
+Definition init_est (tbl : list ste) (tlen : N) : est := mk_est 0 0 None false None tbl tlen.
 
 (* encoder_encode_tree: language override of use_strtbl, string table initialisation *)
 Definition make_env (l : blang) (use_strtbl ignore_empty remove_blanks : bool) (version : N) (anon : bool) : env :=
@@ -933,9 +903,8 @@ Fixpoint parse_node (tbl : list blang) (e : env) (parent : option tagname) (n : 
     let b3 := if has_content then [1] else [] in
     EOk (b1 ++ b2 ++ b3, set_cur_tag st2 None)
   | NText c =>
-    let k := tid st in
-    do (b, st1) <- enc_text e st parent k c;
-    EOk (b, set_cur_tag (set_tid st1 (k + 1)) None)
+    do (b, st1) <- enc_text e st parent c;
+    EOk (b, set_cur_tag st1 None)
   | NCData ch =>
     match cdata st with
     | Some _ => EErr E_INTERNAL
